@@ -47,13 +47,18 @@ func GenerateConcurrent(bitsize int, stop chan struct{}) (<-chan *big.Int, <-cha
 					return
 				}
 
-				// Only send result and continue generating if we have not been told to stop
+				// Only send result and continue generating if we have not been told to stop. The send
+				// itself must also give up when told to stop: the receiver may have stopped receiving
+				// while the channel is full, and then this goroutine would block forever.
 				select {
 				case <-stopped:
 					return
 				default:
-					ints <- x
-					continue
+				}
+				select {
+				case <-stopped:
+					return
+				case ints <- x:
 				}
 			}
 		}()
